@@ -2,6 +2,7 @@ package c06
 
 import (
 	"fmt"
+	"strings"
 
 	"github.com/NVIDIA/KAI-scheduler/pkg/scheduler/api/pod_status"
 
@@ -17,7 +18,11 @@ var settings = []int{Unset, Unset, Unset, Unset, 0, 1, 2, 4}
 // dress adds what cycle.Gen does not draw: a two-level queue tree, min-runtime
 // settings, plugin defaults and resolve method, start times, more priorities,
 // explicit preemptibility.
-func dress(r *u.Rng, base cycle.Cluster) Cluster {
+func dress(r *u.Rng, base cycle.Cluster) Cluster { return dressWith(r, base, settings, false) }
+
+// dressWith: sets draws the per-queue min-runtime settings; keep leaves priorities and
+// preemptibility as the base cluster has them.
+func dressWith(r *u.Rng, base cycle.Cluster, settings []int, keep bool) Cluster {
 	c := Cluster{Nodes: base.Nodes, Actions: base.Actions}
 	ntops := r.Range(1, 2)
 	for i := 0; i < ntops; i++ {
@@ -35,10 +40,10 @@ func dress(r *u.Rng, base cycle.Cluster) Cluster {
 	for _, j := range base.Jobs {
 		nj := Job{Job: j}
 		nj.StartedMins = u.Pick(r, ages)
-		if r.Chance(1, 3) {
+		if !keep && r.Chance(1, 3) {
 			nj.Priority = int32(u.Pick(r, []int{25, 40, 60, 90, 99, 100, 110}))
 		}
-		if r.Chance(1, 8) {
+		if !keep && r.Chance(1, 8) {
 			nj.Preemptibility = u.Pick(r, []string{"preemptible", "non-preemptible"})
 		}
 		c.Jobs = append(c.Jobs, nj)
@@ -130,4 +135,225 @@ func Gen(r *u.Rng) Cluster {
 		return dress(r, cycle.Gen(r))
 	}
 	return dress(r, contention(r))
+}
+
+// gangs draws clusters in which one statement has to evict 2-4 pods: victims that are
+// gangs of several pods (a gang is evicted as a whole) or several small jobs, for a
+// pending job that needs several GPUs at once (one multi-GPU pod, or a gang of pods),
+// by preempt (same queue, lower priority), reclaim (victims in a queue over its share)
+// or consolidation (fragmented nodes: running pods have to move together).
+func gangs(r *u.Rng) cycle.Cluster {
+	var c cycle.Cluster
+	shape := u.Pick(r, []string{"preempt", "preempt", "reclaim", "reclaim", "consolidation", "consolidation", "mixed"})
+	nn := 1
+	if shape == "consolidation" || r.Chance(1, 3) {
+		nn = r.Range(2, 3)
+	}
+	g := int64(u.Pick(r, []int{4, 4, 4, 8}))
+	free := map[string]int64{}
+	for i := 0; i < nn; i++ {
+		ns := core.NodeSpec{Name: fmt.Sprintf("n%d", i+1), Cpu: 64000, Mem: 128 << 30, Gpus: g, Pods: 110}
+		c.Nodes = append(c.Nodes, ns)
+		free[ns.Name] = g
+	}
+	total := float64(g) * float64(nn)
+	switch shape {
+	case "reclaim", "mixed":
+		c.Queues = []cycle.Queue{{Name: "q1", Deserved: total, OverQuota: 1, Priority: 100},
+			{Name: "q2", Deserved: float64(u.Pick(r, []int{0, 0, 1})), OverQuota: 1, Priority: 100}}
+	default:
+		c.Queues = []cycle.Queue{{Name: "q1", Deserved: total, OverQuota: 1, Priority: 100},
+			{Name: "q2", Deserved: 0, OverQuota: 1, Priority: 100}}
+	}
+	vq, vprio := "q1", int32(50)
+	if shape == "reclaim" || (shape == "mixed" && r.Bool()) {
+		vq = "q2"
+	}
+	if shape == "consolidation" {
+		vprio = 75
+	}
+	// running jobs
+	jn := 0
+	leave := map[string]int64{} // GPUs kept free per node (consolidation: fragmentation)
+	for _, n := range c.Nodes {
+		if shape == "consolidation" {
+			leave[n.Name] = int64(r.Range(1, int(g)/2))
+		} else if r.Chance(1, 2) {
+			leave[n.Name] = int64(r.Range(1, 2))
+		}
+	}
+	for _, n := range c.Nodes {
+		for free[n.Name] > leave[n.Name] {
+			jn++
+			room := free[n.Name] - leave[n.Name]
+			np := int64(u.Pick(r, []int{1, 2, 2, 3, 4}))
+			if shape == "consolidation" {
+				np = int64(u.Pick(r, []int{1, 1, 1, 2}))
+			}
+			if np > room {
+				np = room
+			}
+			j := cycle.Job{Name: fmt.Sprintf("v%d", jn), Queue: vq, Priority: vprio, AgeMinutes: r.Range(5, 50)}
+			if shape == "mixed" {
+				j.Queue = u.Pick(r, []string{"q1", "q2"})
+				j.Priority = int32(u.Pick(r, []int{50, 50, 60, 75}))
+			}
+			j.MinMember = int32(np)
+			if np >= 2 && r.Chance(1, 3) {
+				j.MinMember = int32(r.Range(1, int(np)-1)) // elastic
+			}
+			for k := int64(0); k < np; k++ {
+				p := core.PodSpec{Name: fmt.Sprintf("%s-%d", j.Name, k), Cpu: 500, Mem: 1 << 30, Gpus: 1, Status: pod_status.Running, Node: n.Name}
+				free[n.Name]--
+				if r.Chance(1, 25) {
+					p.Status = pod_status.Releasing
+				}
+				j.Pods = append(j.Pods, p)
+			}
+			c.Jobs = append(c.Jobs, j)
+		}
+	}
+	// pending jobs: the first one needs several GPUs at once
+	npend := r.Range(1, 2)
+	for i := 0; i < npend; i++ {
+		j := cycle.Job{Name: fmt.Sprintf("p%d", i+1), Queue: "q1", Priority: 75, AgeMinutes: r.Range(1, 50)}
+		if shape != "consolidation" {
+			j.Priority = int32(u.Pick(r, []int{75, 75, 90}))
+		}
+		need := int64(r.Range(2, 4))
+		if i > 0 {
+			need = int64(r.Range(1, 2))
+		}
+		if shape == "consolidation" {
+			// more than the largest hole, at most all holes together
+			var max, sum int64
+			for _, n := range c.Nodes {
+				if free[n.Name] > max {
+					max = free[n.Name]
+				}
+				sum += free[n.Name]
+			}
+			need = max + int64(r.Range(1, 2))
+			if need > sum {
+				need = sum
+			}
+			if need > g {
+				need = g
+			}
+		}
+		switch {
+		case need >= 2 && r.Chance(1, 2): // a gang of 1-GPU pods
+			j.MinMember = int32(need)
+			for k := int64(0); k < need; k++ {
+				j.Pods = append(j.Pods, core.PodSpec{Name: fmt.Sprintf("%s-%d", j.Name, k), Cpu: 500, Mem: 1 << 30, Gpus: 1, Status: pod_status.Pending})
+			}
+		case need == 4 && r.Chance(1, 2): // two 2-GPU pods
+			j.MinMember = 2
+			for k := 0; k < 2; k++ {
+				j.Pods = append(j.Pods, core.PodSpec{Name: fmt.Sprintf("%s-%d", j.Name, k), Cpu: 500, Mem: 1 << 30, Gpus: 2, Status: pod_status.Pending})
+			}
+		default:
+			j.MinMember = 1
+			j.Pods = []core.PodSpec{{Name: j.Name + "-0", Cpu: 500, Mem: 1 << 30, Gpus: need, Status: pod_status.Pending}}
+		}
+		c.Jobs = append(c.Jobs, j)
+	}
+	// a small job the allocate action binds into a hole first (its Bind is a fault target)
+	if shape != "consolidation" && r.Chance(1, 2) {
+		var holes int64
+		for _, n := range c.Nodes {
+			holes += free[n.Name]
+		}
+		if holes > 0 {
+			np := int(min(holes, int64(r.Range(1, 2))))
+			j := cycle.Job{Name: "s1", Queue: "q1", Priority: 90, MinMember: int32(r.Range(1, np)), AgeMinutes: r.Range(1, 50)}
+			for k := 0; k < np; k++ {
+				j.Pods = append(j.Pods, core.PodSpec{Name: fmt.Sprintf("s1-%d", k), Cpu: 500, Mem: 1 << 30, Gpus: 1, Status: pod_status.Pending})
+			}
+			c.Jobs = append(c.Jobs, j)
+		}
+	}
+	c.Actions = []string{"allocate"}
+	for _, a := range []string{"consolidation", "reclaim", "preempt"} {
+		if r.Chance(5, 6) || strings.HasPrefix(shape, a) {
+			c.Actions = append(c.Actions, a)
+		}
+	}
+	return c
+}
+
+// GenGang draws one cluster of the multi-victim stream.
+func GenGang(r *u.Rng) Cluster {
+	base := gangs(r)
+	if r.Chance(2, 3) {
+		return dressWith(r, base, []int{Unset}, true)
+	}
+	return dressWith(r, base, []int{Unset, Unset, Unset, Unset, Unset, 0, 1, 4}, r.Chance(2, 3))
+}
+
+// FaultPatterns derives fault injections for a cluster from its run without faults
+// (nev Evict calls of the three actions, nbind Bind calls, the longest commit had maxRun
+// Evict calls): the k-th Evict call of the cycle (k = 0, 1, 2), a position inside every
+// commit, a random subset of the Evict calls, and the same combined with a refused Bind.
+func FaultPatterns(r *u.Rng, c Cluster, nev, nbind, maxRun, want int) []Cluster {
+	if nev == 0 {
+		return nil
+	}
+	var pats, bpats []Cluster
+	with := func(ev, run, bind []int) {
+		d := c
+		d.FailEvicts, d.FailInRun, d.FailBinds = ev, run, bind
+		if len(bind) > 0 {
+			bpats = append(bpats, d)
+		} else {
+			pats = append(pats, d)
+		}
+	}
+	for k := 0; k < 3 && k < nev; k++ {
+		with([]int{k}, nil, nil)
+	}
+	for k := 0; k < 3 && k < maxRun; k++ {
+		if maxRun >= 2 {
+			with(nil, []int{k}, nil)
+		}
+	}
+	if maxRun >= 3 {
+		with(nil, []int{0, 2}, nil)
+		with(nil, []int{1, 2}, nil)
+	}
+	if nev >= 2 {
+		var sub []int
+		for k := 0; k < nev; k++ {
+			if r.Chance(1, 2) {
+				sub = append(sub, k)
+			}
+		}
+		if len(sub) > 0 {
+			with(sub, nil, nil)
+		}
+		all := make([]int, nev+2)
+		for k := range all {
+			all[k] = k
+		}
+		with(all, nil, nil)
+	}
+	if nbind > 0 {
+		kb := r.Intn(nbind)
+		with([]int{r.Intn(min(nev, 3))}, nil, []int{kb})
+		with([]int{r.Intn(nev)}, nil, []int{0})
+		if maxRun >= 2 {
+			with(nil, []int{r.Range(1, maxRun-1)}, []int{kb})
+		}
+	}
+	u.Shuffle(r, pats)
+	u.Shuffle(r, bpats)
+	var out []Cluster
+	for len(out) < want && len(pats)+len(bpats) > 0 {
+		if len(bpats) > 0 && (len(pats) == 0 || r.Chance(1, 4)) {
+			out, bpats = append(out, bpats[0]), bpats[1:]
+		} else {
+			out, pats = append(out, pats[0]), pats[1:]
+		}
+	}
+	return out
 }
